@@ -25,7 +25,19 @@ def run(ctx, pid="C10"):
     if r_leg.violated != "ImplRefinesReq":
         raise vlib.MachineryError("RepoCoreImplLegacy did not fail: %s" %
                                   r_leg.violated)
+    ctx.tlc("RepoCoreImpl", "RepoCoreImplShapes.cfg",
+            label="Impl => Req for every bad-property shape class (CIM type x "
+            "array-ness x NULL on a scalar and on an array property)")
+    r_arr = ctx.tlc("RepoCoreImpl", "RepoCoreImplLegacyArr.cfg",
+                    must_pass=False, count=False, label="regression config: "
+                    "is_array validated in one direction only (must violate "
+                    "ImplRefinesReq)")
+    if r_arr.violated != "ImplRefinesReq":
+        raise vlib.MachineryError("RepoCoreImplLegacyArr did not fail: %s" %
+                                  r_arr.violated)
     ctx.extra["sensitivity"] = ["RepoCoreImplLegacy.cfg (AliasKeys=TRUE) "
+                                "violates ImplRefinesReq as required",
+                                "RepoCoreImplLegacyArr.cfg (ArrayOneWay=TRUE) "
                                 "violates ImplRefinesReq as required"]
     if not quick:
         ctx.tlc("RepoCoreImpl", "RepoCoreImplBig.cfg", timeout=3000,
@@ -44,9 +56,14 @@ def run(ctx, pid="C10"):
         drivers.append(repocore.run_calls(ctx.rng, calls))
     judge(ctx, drivers)
     ctx.assumptions += [
-        "schema RA{K,K2 keys,S,T} RB:RA{U} RX in two namespaces; values are "
-        "tokens (two real values, NULL, unset); case of names, keybinding "
-        "order and int/Uint32 are randomised by the concretisation",
+        "schema RA{K,K2 keys,S,T} RB:RA{U[]} RX in two namespaces; values are "
+        "tokens (two real values - for the array property a two-element and "
+        "the empty array -, NULL, unset); case of names (class name of the "
+        "instance and of its path independently), keybinding order and "
+        "int/Uint32 are randomised by the concretisation",
+        "wrongly typed properties range over the 12 non-conforming shapes "
+        "<S|U, string|uint8, scalar|array, value|NULL> plus an undeclared "
+        "property; reference/embedded-object type attributes are not covered",
         "the dump is taken through EnumerateInstances(root classes, "
         "DeepInheritance=True) in every namespace after every call",
         "absent property == NULL property (the statement is silent)",
@@ -76,7 +93,7 @@ def judge(ctx, drivers, only_prefix=None):
                                     ", ".join(clauses)),
                    {"calls": d.calls[:v["at"]],
                     "abstract_calls": [
-                        {k: e[k] for k in ("op", "ns", "cls", "k", "vals",
+                        {k: e[k] for k in ("op", "ns", "cls", "icls", "k", "vals",
                                            "badprop", "kprop", "hasplist",
                                            "plist", "deep")}
                         for e in d.events[:v["at"]]],
